@@ -64,18 +64,7 @@ Definition view_C04 (c : ctx) (items : list item) : view :=
                     [first_param_toks (i_gen im); i_self im; first_where_toks (i_gen im)]
       | None => na
       end
-  | InImpl _ _ st _ _ _, Some src, Some (GImpl _ im) =>
-      let sigs := map (fun '(_, _, s, _) => s) src in
-      let bounds := flat_map (declared_bounds false) sigs in
-      let lhs := impl_path_toks ++ [pc ":"] in
-      decided (toks_eqb (first_param_toks (i_gen im)) (expected_impl_t false) &&
-               toks_eqb (i_self im) st &&
-               match bounds with
-               | [] => negb (is_prefix lhs (first_where_toks (i_gen im)))
-               | _ => toks_eqb (first_where_toks (i_gen im)) (lhs ++ join [pc "+"] bounds)
-               end)
-              [first_param_toks (i_gen im); i_self im; first_where_toks (i_gen im)]
-  | (InFn _ _ _ | InMod _ _ _ _ _ | InImpl _ _ _ _ _ _), Some _, None => undetermined
+  | (InFn _ _ _ | InMod _ _ _ _ _), Some _, None => undetermined
   | _, _, _ => na
   end.
 
@@ -270,9 +259,11 @@ Definition view_C09 (c : ctx) (items : list item) : view :=
                    toks_list_eqb (map print_gparam (p_items (g_params (t_gen tr)))) (map print_gparam (p_items (g_params (t_gen t)))) &&
                    toks_list_eqb (p_items (t_supers tr)) (p_items (t_supers t)) &&
                    toks_list_eqb (map wp_toks (where_items (t_gen tr))) (map wp_toks (where_items (t_gen t))) &&
-                   toks_list_eqb (filter (fun x => negb (is_mock_attr x)) (t_attrs tr)) (h_attrs h) &&
+                   (* the trait's own attributes, as written, after the mock derivations the macro owns *)
+                   (let k := List.length (t_attrs tr) - List.length (h_attrs h) in
+                    toks_list_eqb (skipn k (t_attrs tr)) (h_attrs h) && forallb is_mock_attr (firstn k (t_attrs tr))) &&
                    c09_items (future_send (ta_opts a)) (contains_async_trait (h_attrs h)) (t_items t) (t_items tr))
-                  [print_trait (mkTrait (filter (fun x => negb (is_mock_attr x)) (t_attrs tr)) (t_vis tr) (t_unsafe tr)
+                  [print_trait (mkTrait (skipn (List.length (t_attrs tr) - List.length (h_attrs h)) (t_attrs tr)) (t_vis tr) (t_unsafe tr)
                                         (t_auto tr) (t_name tr) (t_gen tr) (t_colon tr) (t_supers tr) (t_items tr))]
       | None => na
       end
